@@ -250,6 +250,16 @@ def handle : List String → String
     match strOfHex (if h == "-" then [] else h.toList) with
     | some s => showF (parseFloat s)
     | none => "bad-op"
+  | ["pi", h] =>
+    match strOfHex (if h == "-" then [] else h.toList) with
+    | some s => toString (parseInt s)
+    | none => "bad-op"
+  | ["fi", v] =>
+    match v.toList with
+    | 'd' :: r => match parseF r with
+      | some (x, []) => toString x.toInt64
+      | _ => "bad-op"
+    | _ => "bad-op"
   | ["fg", v] =>
     match v.toList with
     | 'd' :: r => match parseF r with
